@@ -11,6 +11,7 @@ A *rich value* is a JSON description of HOW a value is built:
     {"counter": [[k, n], ...]}   a collections.Counter filled in that order
     {"set": [i, ...]}            a set of ints, added in that order
     {"list": [v, ...]} / {"tuple": [v, ...]} / {"nd": [v, ...]}   a list / tuple / 1-D object ndarray
+    {"nd2": [[v, v], [v, v]], "order": "C" | "F"}   a 2-D object ndarray in C or Fortran memory layout
     anything else                a plain value of harness/terms.py (`terms.dec`)
 `dec` builds the object, `abstract` gives the `PF.Val` JSON the Lean model gets for it (the abstract VALUE: two rich values
 have the same abstraction iff the Python objects are equal and of the same type, for everything `wrap` generates), `canon`
@@ -27,7 +28,7 @@ import numpy as np
 
 import terms
 
-RICH_KEYS = ("dict", "ddict", "counter", "set", "list", "tuple", "nd")
+RICH_KEYS = ("dict", "ddict", "counter", "set", "list", "tuple", "nd", "nd2")
 
 
 def is_rich(j):
@@ -66,6 +67,14 @@ def dec(j):
             for i, x in enumerate(j["nd"]):
                 a[i] = dec(x)
             return a
+        if "nd2" in j:
+            # a 2-D object ndarray given by its rows, in C or Fortran memory layout (the VALUE is the same in both layouts)
+            rows = j["nd2"]
+            a = np.empty((len(rows), len(rows[0])), dtype=object)
+            for r, row in enumerate(rows):
+                for c, x in enumerate(row):
+                    a[r, c] = dec(x)
+            return np.asfortranarray(a) if j.get("order") == "F" else a
         if "arr" in j:
             shape, elems = j["arr"]
             a = np.empty(len(elems), dtype=object)
@@ -179,7 +188,11 @@ def call_key(call):
 # ---------------------------------------------------------------------------------------------- generation
 #  kind → number of representation variants.  `wrap(kind, tag, variant)` are equal Python objects for every variant.
 KINDS = {"dict2": 2, "dict3": 6, "dictint": 2, "nested": 4, "listdict": 2, "tupledict": 2, "ddict": 2, "counter": 2, "setdict": 2,
-         "list": 1, "nd": 1}
+         "list": 1, "nd": 1, "nd2": 4}
+# `nd2` is the one kind whose variants come in TWO values: variants 0 and 2 are the same 2 x 2 array in C and in Fortran layout (equal
+# arguments: the resident entry must be used), variants 1 and 3 are its transposed CONTENT in Fortran and C layout - variant 1 has the same
+# memory image, shape and dtype as variant 0 but is another value (a key read off the memory image instead of the logical order confuses the
+# two: seeded change C09-s4-A, `ravel(order="K")`).  `abstract` gives each its own value, so the model and `call_key` keep them apart.
 
 
 def _perm(items, variant):
@@ -217,6 +230,9 @@ def wrap(kind, tag, variant):
         return {"list": [tag, 1]}
     if kind == "nd":
         return {"nd": [tag, 1]}
+    if kind == "nd2":
+        rows = [[tag, 1], [2, 3]] if variant % 2 == 0 else [[tag, 2], [1, 3]]
+        return {"nd2": rows, "order": "F" if variant in (1, 2) else "C"}
     raise ValueError(kind)
 
 
